@@ -143,6 +143,60 @@ func ruleDescriptorConstructorSource(w *World, r *Report, rule string) {
 	if n == 0 {
 		r.Fail(rule, "Descriptor.Constructor", token.NoPos, "no descriptor literal sets Constructor")
 	}
+	// the Instance of a descriptor: the registered value itself, never the analysis record's copy
+	// (the analyzer caches non-function values per type: the first value of that type it ever saw)
+	m := 0
+	fromAnalysis := func(info *types.Info, e ast.Expr) bool {
+		bad := false
+		ast.Inspect(e, func(y ast.Node) bool {
+			if sel, ok := y.(*ast.SelectorExpr); ok {
+				if fv := plainFieldOf(info, sel); fv != nil {
+					if tv, ok := info.Types[sel.X]; ok && isNamedType(tv.Type, modPath+"/internal/reflection", "ConstructorInfo") {
+						switch fv.Type().Underlying().(type) {
+						case *types.Interface, *types.Struct: // any, reflect.Value
+							bad = true
+						}
+					}
+				}
+			}
+			return true
+		})
+		return bad
+	}
+	for _, fi := range w.FuncsOf(w.Godi) {
+		info := fi.Pkg.TypesInfo
+		check := func(v ast.Expr) {
+			m++
+			con := fmt.Sprintf("%s#Descriptor.Instance/%d", fi.Name(), m)
+			r.Check(!fromAnalysis(info, resolveLocal(info, fi.Decl.Body, v, 2)) && !fromAnalysis(info, v), rule, con, v.Pos(), false,
+				"the descriptor's Instance does not come from the analysis record",
+				"the descriptor's Instance is "+exprStr(v)+", a value of the shared analysis record: the analyzer caches non-function values per type, so every later instance of that type is served as the first one registered")
+		}
+		ast.Inspect(fi.Decl.Body, func(x ast.Node) bool {
+			switch s := x.(type) {
+			case *ast.CompositeLit:
+				if tv, ok := info.Types[s]; ok && isNamedType(tv.Type, modPath, "Descriptor") {
+					if v, has := compositeFields(s)["Instance"]; has {
+						check(v)
+					}
+				}
+			case *ast.AssignStmt:
+				if len(s.Lhs) == len(s.Rhs) {
+					for i, l := range s.Lhs {
+						if fv := plainFieldOf(info, l); fv != nil && fv.Name() == "Instance" {
+							if tv, ok := info.Types[selBase(l)]; ok && isNamedType(tv.Type, modPath, "Descriptor") {
+								check(s.Rhs[i])
+							}
+						}
+					}
+				}
+			}
+			return true
+		})
+	}
+	if m == 0 {
+		r.Fail(rule, "Descriptor.Instance", token.NoPos, "no assignment of a descriptor's Instance found")
+	}
 }
 
 func isParamOf(fi *FuncInfo, info *types.Info, o types.Object) bool {
